@@ -36,6 +36,9 @@ pub struct Act {
     /// index of the first recorded position after this activation returned (None: never / exit)
     pub ret_idx: Option<usize>,
     pub depth: u32,
+    /// entered by a tail jump from its parent (shares the parent's return slot)
+    #[serde(default)]
+    pub tail: bool,
 }
 
 #[derive(Clone, Debug, Serialize, Deserialize)]
@@ -63,6 +66,8 @@ pub struct ElfInfo {
     pub entry: u64,
     pub is_pie: bool,
     pub symbols: Vec<(String, u64, u64)>,
+    /// data symbols by name
+    pub data: std::collections::BTreeMap<String, u64>,
 }
 
 pub fn elf_info(path: &Path) -> Result<ElfInfo, String> {
@@ -72,6 +77,7 @@ pub fn elf_info(path: &Path) -> Result<ElfInfo, String> {
     let mut main = 0;
     let mut tick = None;
     let mut symbols = vec![];
+    let mut data_syms = std::collections::BTreeMap::new();
     for s in obj.symbols() {
         let n = s.name().unwrap_or("");
         if n == "main" {
@@ -79,6 +85,9 @@ pub fn elf_info(path: &Path) -> Result<ElfInfo, String> {
         }
         if n == "TICK" {
             tick = Some(s.address());
+        }
+        if s.kind() == object::SymbolKind::Data && !n.is_empty() {
+            data_syms.insert(n.to_string(), s.address());
         }
         if s.kind() == object::SymbolKind::Text && s.size() > 0 {
             symbols.push((n.to_string(), s.address(), s.size()));
@@ -94,7 +103,7 @@ pub fn elf_info(path: &Path) -> Result<ElfInfo, String> {
         }
     }
     let is_pie = matches!(obj.kind(), object::ObjectKind::Dynamic);
-    Ok(ElfInfo { main, tick, text_lo: lo, text_hi: hi, entry: obj.entry(), is_pie, symbols })
+    Ok(ElfInfo { main, tick, text_lo: lo, text_hi: hi, entry: obj.entry(), is_pie, symbols, data: data_syms })
 }
 
 fn peek(pid: i32, a: u64) -> Option<u64> {
@@ -237,10 +246,11 @@ pub fn trace(path: &Path, args: &[String]) -> Result<RefTrace, String> {
     let mut acts: Vec<Act> = Vec::new();
     let mut stack: Vec<u32> = Vec::new();
     let r0 = raw::getregs(pid).map_err(|e| format!("getregs {e}"))?;
-    acts.push(Act { parent: None, ret: peek(pid, r0.rsp).unwrap_or(0), slot: r0.rsp, entry_idx: 0, entry_rip: r0.rip, args: [r0.rdi, r0.rsi, r0.rdx, r0.rcx, r0.r8, r0.r9], ret_idx: None, depth: 0 });
+    acts.push(Act { parent: None, ret: peek(pid, r0.rsp).unwrap_or(0), slot: r0.rsp, entry_idx: 0, entry_rip: r0.rip, args: [r0.rdi, r0.rsi, r0.rdx, r0.rcx, r0.r8, r0.r9], ret_idx: None, depth: 0, tail: false });
     stack.push(0);
     let mut prev: Option<(u64, u64)> = None; // (rip, rsp) of the previous in-text stop
     let mut steps = 0u64;
+    let fn_starts: HashSet<u64> = info.symbols.iter().map(|(_, a, _)| base + a).collect();
     let mut foreign = 0u64;
     'outer: loop {
         let r = match raw::getregs(pid) {
@@ -280,12 +290,26 @@ pub fn trace(path: &Path, args: &[String]) -> Result<RefTrace, String> {
         }
         // call detection
         if let Some((prip, prsp)) = prev {
+            let mut called = false;
             if r.rsp == prsp.wrapping_sub(8) {
                 if let Some(w) = peek(pid, r.rsp) {
                     if w > prip && w <= prip + 15 && r.rip != w && is_call_at(pid, prip) {
                         let parent = stack.last().copied();
                         let id = acts.len() as u32;
-                        acts.push(Act { parent, ret: w, slot: r.rsp, entry_idx: pos.len(), entry_rip: r.rip, args: [r.rdi, r.rsi, r.rdx, r.rcx, r.r8, r.r9], ret_idx: None, depth: stack.len() as u32 });
+                        acts.push(Act { parent, ret: w, slot: r.rsp, entry_idx: pos.len(), entry_rip: r.rip, args: [r.rdi, r.rsi, r.rdx, r.rcx, r.r8, r.r9], ret_idx: None, depth: stack.len() as u32, tail: false });
+                        stack.push(id);
+                        called = true;
+                    }
+                }
+            }
+            // tail call: a jump to a function entry with the stack pointer back at the
+            // activation's entry value; the callee shares the return slot of its parent
+            if !called && fn_starts.contains(&r.rip) && r.rip != prip {
+                if let Some(&top) = stack.last() {
+                    if acts[top as usize].slot == r.rsp && pos.len() > acts[top as usize].entry_idx {
+                        let id = acts.len() as u32;
+                        let (ret, slot) = (acts[top as usize].ret, acts[top as usize].slot);
+                        acts.push(Act { parent: Some(top), ret, slot, entry_idx: pos.len(), entry_rip: r.rip, args: [r.rdi, r.rsi, r.rdx, r.rcx, r.r8, r.r9], ret_idx: None, depth: stack.len() as u32, tail: true });
                         stack.push(id);
                     }
                 }
@@ -343,7 +367,7 @@ pub fn trace(path: &Path, args: &[String]) -> Result<RefTrace, String> {
 
 /// Cached reference trace for a built program.
 pub fn trace_cached(bin: &Path) -> Result<RefTrace, String> {
-    let cache = bin.with_extension("trace.json");
+    let cache = bin.with_extension("trace3.json");
     if let Ok(s) = std::fs::read_to_string(&cache) {
         if let Ok(t) = serde_json::from_str::<RefTrace>(&s) {
             return Ok(t);
